@@ -43,7 +43,13 @@ type Extractor struct {
 	resolver        func(core.IndirectRef) (core.Object, error) // Reference resolver
 	xobjectDepth    int                                         // Current XObject nesting depth
 	maxXObjectDepth int                                         // Maximum nesting depth (prevents infinite recursion)
+	xobjectInvoked  int                                         // Form XObject invocations in the current Extract
 }
+
+// maxXObjectInvocations bounds the form XObject invocations of one Extract. The nesting limit
+// alone does not bound the work: a form that invokes itself (or a sibling) k times costs k^depth
+// invocations, so a 64-byte stream could keep the extractor busy for hours.
+const maxXObjectInvocations = 10000
 
 // NewExtractor creates a new text extractor with initialized graphics state.
 func NewExtractor() *Extractor {
@@ -172,6 +178,7 @@ func resolveIfRef(obj core.Object, resolver func(core.IndirectRef) (core.Object,
 // Extract extracts text fragments from parsed content stream operations.
 func (e *Extractor) Extract(operations []contentstream.Operation) ([]TextFragment, error) {
 	e.fragments = make([]TextFragment, 0)
+	e.xobjectInvoked = 0
 
 	for i, op := range operations {
 		if err := e.processOperation(op); err != nil {
@@ -374,6 +381,12 @@ func (e *Extractor) invokeXObject(name string) error {
 	if e.xobjectDepth >= e.maxXObjectDepth {
 		return fmt.Errorf("XObject nesting too deep (max %d)", e.maxXObjectDepth)
 	}
+
+	// Check the invocation budget: once it is used up, further Do operators are ignored
+	if e.xobjectInvoked >= maxXObjectInvocations {
+		return nil
+	}
+	e.xobjectInvoked++
 
 	// Get XObject dictionary from resources
 	xobjectDictObj := e.resources.Get("XObject")
